@@ -131,6 +131,8 @@ TABLE = [
     ('R8', 'D.write_all(B) -> vio_write_all(D, B)  (D: &mut W)', re.compile(r'\b(dest)\.write_all\(([^;]*?)\)(\?|;|\s*$)', re.M), r'vio_write_all(\1, \2)\3'),
     ('R11', 'X.write(&tag) -> X.write(tag.as_array())  (the deref coercion &Tag -> &[u8] of GenericArray, written out)', re.compile(r'\.write\(&(\w*tag\w*)\)'), r'.write(\1.as_array())'),
     ('R14', 'map.entry(k).or_default() -> map.entry_or_default(k)  (std: the value at k, inserting the default when absent)', re.compile(r'\.entry\((\w+)\)\s*\.or_default\(\)'), r'.entry_or_default(\1)'),
+    ('R6', 'debug_assert_eq!(A, B) -> debug_assert!(A == B)  (same check; the formatting of the failure message is dropped)', re.compile(r'\bdebug_assert_eq!\(([^,;()]*(?:\([^()]*\)[^,;()]*)*),\s*([^,;()]*(?:\([^()]*\)[^,;()]*)*)\);'), r'debug_assert!(\1 == \2);'),
+    ('R6', 'debug_assert_ne!(A, B) -> debug_assert!(A != B)', re.compile(r'\bdebug_assert_ne!\(([^,;()]*(?:\([^()]*\)[^,;()]*)*),\s*([^,;()]*(?:\([^()]*\)[^,;()]*)*)\);'), r'debug_assert!(\1 != \2);'),
     ('R11', 'cursor.get_mut().clear() -> cursor.vclear()', re.compile(r'\.get_mut\(\)\s*\.clear\(\)'), '.vclear()'),
     ('R10', 'X.read_u32::<LittleEndian>() -> vio_read_u32_le(X)', re.compile(r'\b(\w+)\.read_u32::<LittleEndian>\(\)'), r'vio_read_u32_le(\1)'),
     ('R10', 'X.read_u64::<LittleEndian>() -> vio_read_u64_le(X)', re.compile(r'\b(\w+)\.read_u64::<LittleEndian>\(\)'), r'vio_read_u64_le(\1)'),
